@@ -245,8 +245,13 @@ def rewrite(rng, e, kind):
                 ops.insert(rng.randrange(len(ops) + 1), simple_obs(rng, 0))
                 new = ("oor", [s, (k, ops)])
             else:
-                y = simple_obs(rng, 0)
-                new = ("oor", [s, (rng.choice(["oand", "ofb"]), [s, y])])
+                # A or (A op B) = A wherever A stands among the operands (FOLLOWEDBY keeps them in the order written, so A may come
+                # after operands which sort before or after it) and whichever side of the OR the container is on
+                inner = [s]
+                for _ in range(rng.choice([1, 1, 2])):
+                    inner.insert(rng.randrange(len(inner) + 1), simple_obs(rng, 0))
+                cont = (rng.choice(["oand", "ofb", "ofb"]), inner)
+                new = ("oor", [s, cont] if rng.random() < 0.6 else [cont, s])
         elif kind == "absorb-wrong" and k == "obs" and rng.random() < 0.5:
             # multiset, not set, containment: (X AND X) is not absorbed by / does not absorb (X AND Y)
             op = rng.choice(["oand", "ofb"])
@@ -631,6 +636,18 @@ def wl_specials(ctx, rng, i):
         op = rng.choice(["=", "=", "!="])
         same_operand = k1 == k2
         a, b = ("cmp", path, op, False, k1), ("cmp", path, op, False, k2)
+        if fam == "other-kind" and rng.random() < 0.7:
+            # history: the same texts were met as STRING constants on the same path earlier in the process (where they are indeed
+            # respellings of one another); what the library worked out for those must not be reused for constants of another kind
+            for kk in (k1, k2):
+                if isinstance(kk[1], str):
+                    try:
+                        tw = prepare(rng, ("obs", ("cmp", path, op, False, ("str", kk[1]))))
+                        if tw:
+                            eq(tw, tw)
+                            ctx.count("special_texts_met_as_strings_first")
+                    except Exception:
+                        pass
         ptxt, qtxt = prepare(rng, ("obs", a)), prepare(rng, ("obs", b))
         if not ptxt or not qtxt:
             ctx.skip("generator error")
